@@ -28,6 +28,9 @@ type c01ChunkInfo struct {
 	Stamps []e2eStamp
 }
 
+// c01ChunkKey identifies a chunk: the id string first (so that sorting keys sorts by creation time), then the tag
+func c01ChunkKey(ch *ffChunk) string { return ch.ID + "|" + ch.Tag }
+
 func c01ChunkNano(id string) int64 {
 	i := strings.IndexByte(id, '-')
 	if i < 0 {
@@ -50,11 +53,12 @@ func c01EncodeTrace(run *c01Run, output string) []int64 {
 	sc := run.Sc
 	// chunk table: every chunk id observed at the server or in a queue directory
 	info := map[string]*c01ChunkInfo{}
+	// chunk ids are only unique per pipeline (two pipelines can generate the same nanosecond): identity = id + tag
 	note := func(ch *ffChunk) {
-		if _, ok := info[ch.ID]; ok {
+		if _, ok := info[c01ChunkKey(ch)]; ok {
 			return
 		}
-		info[ch.ID] = &c01ChunkInfo{ID: ch.ID, Pipe: sc.pipeNumOfID(c01TagToPipeline(ch.Tag)), Stamps: ch.Stamps()}
+		info[c01ChunkKey(ch)] = &c01ChunkInfo{ID: ch.ID, Pipe: sc.pipeNumOfID(c01TagToPipeline(ch.Tag)), Stamps: ch.Stamps()}
 	}
 	chunks := run.Chunks[output]
 	for i := range chunks {
@@ -75,7 +79,7 @@ func c01EncodeTrace(run *c01Run, output string) []int64 {
 	for i, id := range ids {
 		ci := info[id]
 		ci.Num = 16 * (i + 1)
-		nano := c01ChunkNano(id)
+		nano := c01ChunkNano(ci.ID)
 		ci.Gen = len(run.Gens) - 1
 		for g, gen := range run.Gens {
 			if nano <= gen.StopNano || !gen.Stopped {
@@ -119,10 +123,10 @@ func c01EncodeTrace(run *c01Run, output string) []int64 {
 		if s == nil {
 			s = &sess{attempt: ch.Attempt}
 			byAttempt[ch.Attempt] = s
-			key := [2]int{attemptGen(ch.Attempt), info[ch.ID].Pipe}
+			key := [2]int{attemptGen(ch.Attempt), info[c01ChunkKey(ch)].Pipe}
 			sessions[key] = append(sessions[key], s)
 		}
-		s.evs = append(s.evs, [2]int{e.kind, info[ch.ID].Num})
+		s.evs = append(s.evs, [2]int{e.kind, info[c01ChunkKey(ch)].Num})
 	}
 	for _, l := range sessions {
 		sort.Slice(l, func(i, j int) bool { return l[i].attempt < l[j].attempt })
@@ -219,7 +223,7 @@ func c01EncodeTrace(run *c01Run, output string) []int64 {
 		var disk [][2]int
 		for _, qf := range gen.Disk[output] {
 			if qf.Chunk != nil {
-				disk = append(disk, [2]int{info[qf.ChunkID].Pipe, info[qf.ChunkID].Num})
+				disk = append(disk, [2]int{info[c01ChunkKey(qf.Chunk)].Pipe, info[c01ChunkKey(qf.Chunk)].Num})
 			}
 		}
 		z = append(z, int64(len(disk)))
